@@ -99,6 +99,8 @@ CREATORS = {
 def create_lib(creator, path, outfile, **kw):
     """Library-route create; returns outfile path written."""
     cls, ver = CREATORS[creator]
+    if kw.pop("_int_version", False):
+        ver = int(ver)          # the documented type of the keyword (docstring: `meta_version : int`)
     kw.setdefault("progress", 0)
     with quiet():
         t = cls(path=path, outfile=outfile, meta_version=ver, **kw)
